@@ -192,3 +192,20 @@ func verifResult(kind int, req *dns.Msg, msgs *dnsmsg.Constructor) filter.Result
 	return nil
 }
 
+
+// VerifChainEnv is the main middleware over recorder stubs whose filter blocks every
+// request, for the harnesses of the packages in front of it.
+type VerifChainEnv struct{ e *verifEnv }
+
+// VerifNewChainEnv returns the environment; every filtered request is blocked.
+func VerifNewChainEnv() *VerifChainEnv {
+	e := verifNewEnv()
+	e.flt.reqRes = &filter.ResultBlocked{List: "block_list", Rule: "||example.org^"}
+	return &VerifChainEnv{e: e}
+}
+
+// Handler returns the main middleware wrapped around the stub upstream.
+func (c *VerifChainEnv) Handler() dnsserver.Handler { return c.e.mw.Wrap(c.e.ups) }
+
+// Resolved returns the number of queries that reached the upstream.
+func (c *VerifChainEnv) Resolved() int { return c.e.ups.calls }
